@@ -185,16 +185,33 @@ def build(kind, user):
     return MultiSetup_PreGER(fs=FS0, ref_ind=[list(r) for r in ref], datasets=user)
 
 
-def impl_apply(o, ev, m, nprobe):
+def impl_apply(o, ev, m, nprobe, form=0):
+    """Apply the event through the public API. `form` rotates the legal ways of writing the same call (positional or
+    keyword arguments; band edges as tuple, list or array; breakpoints as int, list or array): they must all mean the same."""
     if ev[0] == "dec":
-        o.decimate_data(q=ev[1], **dict(ev[2]))
-    elif ev[0] == "det":
-        o.detrend_data(**m.kwargs(ev))
-    elif ev[0] == "fil":
-        if ev[3] is None:
-            o.filter_data(Wn=m.wn(ev), btype=ev[1])
+        if form % 2:
+            o.decimate_data(ev[1], **dict(ev[2]))
         else:
-            o.filter_data(Wn=m.wn(ev), order=ev[3], btype=ev[1])
+            o.decimate_data(q=ev[1], **dict(ev[2]))
+    elif ev[0] == "det":
+        kw = m.kwargs(ev)
+        if "bp" in kw and form % 3 == 1:
+            kw["bp"] = np.atleast_1d(kw["bp"])
+        elif "bp" in kw and form % 3 == 2 and not np.isscalar(kw["bp"]):
+            kw["bp"] = tuple(kw["bp"])
+        o.detrend_data(**kw)
+    elif ev[0] == "fil":
+        wn = m.wn(ev)
+        if isinstance(wn, tuple):
+            wn = [wn, list(wn), np.asarray(wn)][form % 3]
+        elif form % 3 == 2:
+            wn = np.float64(wn)
+        if ev[3] is None:
+            o.filter_data(Wn=wn, btype=ev[1])
+        elif form % 2:
+            o.filter_data(wn, ev[3], ev[1])
+        else:
+            o.filter_data(Wn=wn, order=ev[3], btype=ev[1])
     elif ev[0] == "rb":
         o.rollback()
     elif ev[0] == "add":
@@ -315,7 +332,7 @@ def run_history(kind_idx, kind, events, hist, seed, judge_all=False):
         except Exception as e:
             mexc = e
         try:
-            impl_apply(o, ev, m, nprobe)
+            impl_apply(o, ev, m, nprobe, form=step + len(evs))
             iexc = None
         except Exception as e:
             iexc = e
